@@ -1,6 +1,6 @@
 /* byte classifiers of unicode.cpp / checkers-inl.h against the Standard's definitions, all 256 values */
 void harness(void) {
-  uint8_t u; char c = (char)u;
+  NONDET(uint8_t, u); char c = (char)u;
   __CPROVER_assert(is_forbidden_host_code_point(c) == (SPEC_FORBIDDEN_HOST(u) ? 1 : 0), "postcondition: forbidden host code point table exact");
   __CPROVER_assert(is_forbidden_domain_code_point(c) == ((SPEC_FORBIDDEN_DOMAIN(u) || u >= 0x80) ? 1 : 0), "postcondition: forbidden domain code point table exact (bytes >= 0x80 cannot be in an ASCII domain)");
   __CPROVER_assert(is_alnum_plus(c) == (SPEC_SCHEME_CHAR(u) ? 1 : 0), "postcondition: is_alnum_plus <=> ASCII alphanumeric + - .");
